@@ -302,7 +302,13 @@ Section Encoder.
     | TInt | TEnum => match v, cd with
                | VInt z, EcInt => Ok (enc_integer (ef_compact_zero fl) z, false)
                | _, _ => Err EMalformed end
-    | TBits => match v, cd with VBits bs, EcBits => enc_bits o bs | _, _ => Err EMalformed end
+    | TBits => match v, cd with
+               | VBits bs, EcBits => enc_bits o bs
+               | VBits bs, EcBitsCer =>
+                   (* X.690 9.2: the initial octet counts towards the segment's contents octets *)
+                   enc_bits (if N.ltb 1 (o_chunk o) then mkOpts (o_def o) (o_chunk o - 1) (o_ifne o) else o) bs
+               | _, _ => Err EMalformed
+               end
     | TOcts => match cd with EcOcts => enc_octets_like o v | _ => Err EMalformed end
     | TStr _ => match cd with
                 | EcOcts => enc_octets_like o v
